@@ -6,7 +6,7 @@
             mv_0m; mv_0e; ...               k pairs      max_voltage entries as m*2^e
             x_00m; x_00e; ...]              nc*ns pairs  data, channel after channel
            fd / fm: dtype of data / of atleast_1d(max_voltage): 0 = float32, 1 = float64
-           every float is passed exactly as m * 2^e (infinity: 1 * 2^100000)
+           every float is passed exactly as m * 2^e (infinity: 1 * 2^100000; NaN: (0, 100001))
    output: [0]                                      the source raises (broadcast error)
            1 :: ns :: flags (0/1) ++ mute * 2^s     otherwise
    READER (max_voltage = Reader.range_volts[:nc - nsync] of a .meta file; C09's model parses it)
@@ -36,12 +36,17 @@ Fixpoint chunk {A} (cnt n : nat) (l : list A) : list (list A) :=
   | S c => firstn n l :: chunk c n (skipn n l)
   end.
 
+(* decoding of one float: (m, e) is m * 2^e rounded into the format; (0, 100001) is NaN
+   (an unknown full scale: Reader.range_volts of a recording without metadata; missing samples) *)
+Definition dec_float p e (Hp : Prec_gt_0 p) (He : Prec_lt_emax p e) (x : Z * Z) : binary_float p e :=
+  if snd x =? 100001 then B754_nan else binary_normalize p e Hp He mode_NE (fst x) (snd x) false.
+
 Definition flags_fmt (fd fm : Z) (fs_m fs_e vps_m vps_e p_m p_e : Z)
            (mv : list (Z * Z)) (data : list (list (Z * Z))) : option (list bool) :=
   let go pd ed pm em Hpd Hed Hpm Hem :=
     ieee_flags pd ed pm em Hpd Hed Hpm Hem fs_m fs_e vps_m vps_e p_m p_e
-      (map (map (fun x => of_me_d pd ed Hpd Hed (fst x) (snd x))) data)
-      (map (fun x => of_me_m pm em Hpm Hem (fst x) (snd x)) mv) in
+      (map (map (dec_float pd ed Hpd Hed)) data)
+      (map (dec_float pm em Hpm Hem) mv) in
   match fd, fm with
   | 0, 0 => go 24 128 24 128 Hp24 He24 Hp24 He24
   | 0, _ => go 24 128 53 1024 Hp24 He24 Hp53 He53
@@ -59,7 +64,7 @@ Definition enc_float {p e} (x : binary_float p e) : list Z :=
   end.
 
 Definition data_of pd ed Hpd Hed (data : list (list (Z * Z))) :=
-  map (map (fun x => of_me_d pd ed Hpd Hed (fst x) (snd x))) data.
+  map (map (dec_float pd ed Hpd Hed)) data.
 
 (* flags for data of dtype fd and a max_voltage vector already given as floats *)
 Definition flags_reader (fd : Z) (fs_m fs_e vps_m vps_e p_m p_e : Z) (rv : rv_float)
